@@ -119,6 +119,10 @@ def g_opt(s):
     return "None" if s is None else f"(Some {coq_string(s)})"
 
 
+ALT_ROUTES = ["/directory/", "/script/", "/lineage/", "//directory", "/directory//", "/Directory", "/directory/.",
+              "/api/directory", "/script/../directory", "directory", "/directory?f=1", "/script//"]
+
+
 def main() -> int:
     ck = Check("C17")
     ck.assumptions += [
@@ -157,6 +161,14 @@ def main() -> int:
                     reqs.append((ri, "/directory", "root/a.sql", p))
                     reqs.append((ri, "/directory", "", p))
                     reqs.append(((ri + 1) % len(roots), "/script", p, None))
+                if i % (7 if quick else 2) == 0:
+                    # route spellings that are not routes of the application (trailing / doubled slashes, case, query
+                    # text, a prefix path): whatever the server does with them, it must disclose nothing (S), and
+                    # the unchanged handler answers 404 (model: ROther)
+                    alt = ALT_ROUTES[(i // 7) % len(ALT_ROUTES)] if quick else None
+                    for rt_alt in ([alt] if quick else ALT_ROUTES):
+                        reqs.append((ri, rt_alt, p, None))
+                        reqs.append((ri, rt_alt, None, p))
                 if i % (40 if quick else 8) == 0:
                     reqs.append((ri, "/lineage", p, None))
                     reqs.append((ri, "/lineage", p, "root"))
@@ -166,7 +178,7 @@ def main() -> int:
             route_g = {"/script": "RScript", "/lineage": "RLineage", "/directory": "RDirectory", "/nope": "ROther"}
             exprs = [
                 f"show_post {coq_string(str(base))} {coq_string(roots[ri])} "
-                f"{{| rt := {route_g[rt]}; pf := {g_opt(f)}; pd := {g_opt(dd)} |}}"
+                f"{{| rt := {route_g.get(rt, 'ROther')}; pf := {g_opt(f)}; pd := {g_opt(dd)} |}}"
                 for ri, rt, f, dd in reqs
             ]
             model = coq_eval(HEADER, exprs, shard=800)
